@@ -1,0 +1,8 @@
+//go:build !verif
+// +build !verif
+
+package util
+
+// verifStep marks an atomic step of the pool (verification hook point, see resource_pool_verif_on.go);
+// without the verif build tag it is an empty function that the compiler inlines away.
+func verifStep(rp *ResourcePool, point string) {}
